@@ -9,6 +9,7 @@ def T(qc, tc, size=100, qw=8, tw=NP, **kw):
 
 TIERS = {
     "C01": T(1500, 20000),
+    "C18": T(2500, 40000),
 }
 
 LEVEL = {
